@@ -110,12 +110,17 @@ def expected_ok(prop, schema):
                     stack.extend([x.event1, x.event2])
                 else:
                     evs.append(x)
+    # an alias stands for a message of the channel of the event that binds it
+    variables = dict(schema)
+    for ev in evs:
+        if ev.alias is not None and ev.name in schema:
+            variables[ev.alias] = schema[ev.name]
     for ev in evs:
         if ev.name not in schema:
             return False
         if isinstance(ev.predicate, HplPredicateExpression):
             for path in _paths(ev.predicate.expression):
-                if _resolve(path, schema[ev.name], schema)[0] != 'ok':
+                if _resolve(path, schema[ev.name], variables)[0] != 'ok':
                     return False
     return True
 
@@ -148,7 +153,7 @@ def schema_walk(tier='quick', seed=0):
         elif shape == 1:
             texts.append(f'after b as B {{v > 0}}: no a {{{p1} and @B.v = k}}')
         elif shape == 2:
-            texts.append(f'after b as B: a {{{p2}}} requires c {{{p1} or @B.nope = 1}}')
+            texts.append(f'after b as B: a {{{p2}}} requires c {{{p1} or @B.{rnd.choice(["nope", "v", "name"])} = 1}}')
         elif shape == 3:
             texts.append(f'globally: (a {{{p1}}} or b {{v = 1}}) forbids c {{{p2}}} within 1 s')
         else:
